@@ -115,6 +115,28 @@ func c13Packets(c *sim.Ctx) ([]mq.Packet, []string) {
 			hows = append(hows, a.TypeName()+" built")
 		}
 	}
+	if t.Bool(1, 150) {
+		// two DIFFERENT packets of one type whose frames exceed 1 MiB, written at the
+		// same time: state the encoder keeps per process (a "last sized" memo) is shared
+		// by them even though neither packet is
+		for k := 0; k < 2; k++ {
+			pb := mq.NewPublish()
+			pb.SetTopicName(fmt.Sprintf("big/%d", k))
+			pay := make([]byte, 1<<20+t.Int(1<<19))
+			for i := 0; i < len(pay); i += 4096 {
+				pay[i] = byte(i>>12) + byte(k)
+			}
+			pb.SetPayload(pay)
+			if k == 1 {
+				pb.SetQoS(1)
+				pb.SetPacketID(77)
+				pb.AddUserProp("k", "v")
+			}
+			ps = append(ps, pb)
+			hows = append(hows, fmt.Sprintf("PUBLISH of %d bytes payload", len(pay)))
+		}
+		c.Count("probe.two-different-packets-over-1MiB")
+	}
 	return ps, hows
 }
 
